@@ -83,7 +83,9 @@ func (self *Lexer) skipLineComment() {
 		self.advance()
 	}
 
-	self.advance()
+	if self.currentChar != nil {
+		self.advance()
+	}
 }
 
 func (self *Lexer) skipBlockComment() {
@@ -91,10 +93,10 @@ func (self *Lexer) skipBlockComment() {
 	self.advance()
 
 	for {
-		if self.currentChar == nil || self.nextChar == nil {
+		if self.currentChar == nil {
 			break
 		}
-		if *self.currentChar == '*' && *self.nextChar == '/' {
+		if *self.currentChar == '*' && self.nextChar != nil && *self.nextChar == '/' {
 			self.advance()
 			self.advance()
 			break
